@@ -178,8 +178,50 @@ pub fn chain_bytes(depth: usize, shape: usize, form: usize, carrier: usize) -> V
     chain_in_carrier(&countersig_chain_form(depth, shape, form), carrier)
 }
 
+/// A value that is wide *and* deep: `depth` nested arrays (or maps) of `width` entries each, the next
+/// level sitting at index `at` of its parent, small scalars elsewhere (anything that extrapolates a
+/// size, a count or a cost from a prefix of a container compounds the error level by level).
+fn wide_and_deep(width: usize, depth: usize, at: usize, maps: bool) -> Vec<u8> {
+    let mut v: Vec<u8> = vec![0x00];
+    for _ in 0..depth {
+        let mut b = vec![];
+        head(&mut b, if maps { 5 } else { 4 }, width as u64);
+        for i in 0..width {
+            if maps {
+                head(&mut b, 0, i as u64);
+            }
+            if i == at.min(width - 1) {
+                b.extend_from_slice(&v);
+            } else {
+                b.push((i % 24) as u8);
+            }
+        }
+        v = b;
+    }
+    v
+}
+
 fn gen_bomb(g: &mut Gen, ctx: &mut Ctx) -> Vec<u8> {
     let max_len: usize = if std::env::var("VERIF_TIER_INTERNAL").ok().as_deref() == Some("thorough") { 4 << 20 } else { 1 << 20 };
+    if g.ratio(1, 8) {
+        let width = *g.pick(&[2usize, 8, 9, 16, 24, 64, 128, 255, 256, 300]);
+        let depth = (*g.pick(&[4usize, 8, 12, 16, 22, 30, 48, 64, 100, 200])).min(max_len / 2 / width).max(1);
+        let at = *g.pick(&[0usize, 1, 3, 7, 8, 9, usize::MAX]);
+        let maps = g.ratio(1, 4);
+        ctx.classf(format!("bomb:wide-and-deep:{}", if width * depth >= 2048 { "large" } else { "small" }));
+        let v = wide_and_deep(width, depth, at, maps);
+        // as a bare value, or as an extra of the (unprotected) header of a message, of a key, of a claims set
+        return match g.below(8) {
+            0 => v,
+            1 => [&[0xa1u8, 0x18, 0x63][..], &v].concat(),
+            2 => [&[0xa2u8, 0x01, 0x01, 0x18, 0x63][..], &v].concat(),
+            3 => [&[0x84u8, 0x40, 0xa1, 0x18, 0x63][..], &v, &[0xf6, 0x40]].concat(),
+            4 => [&[0x84u8, 0x40, 0xa1, 0x18, 0x63][..], &v, &[0xf6, 0x80]].concat(),
+            5 => [&[0x85u8, 0x40, 0xa1, 0x18, 0x63][..], &v, &[0xf6, 0x40, 0x80]].concat(),
+            6 => [&[0x83u8, 0x40, 0xa1, 0x18, 0x63][..], &v, &[0xf6]].concat(),
+            _ => [&[0x84u8][..], &bstr(&[&[0xa1u8, 0x18, 0x63][..], &v].concat()), &[0xa0, 0xf6, 0x40]].concat(),
+        };
+    }
     match g.below(8) {
         0 => {
             // deeply nested arrays / maps / tags
